@@ -43,6 +43,10 @@ func (s *Set) String() string {
 		for code := node.Begin; code <= node.End; code++ {
 			codes += space + fmt.Sprintf("%v", code)
 			space = " "
+			if code == node.End {
+				/* End may be the largest rune value: code++ would wrap around */
+				break
+			}
 		}
 		node = node.Forward
 	}
